@@ -214,7 +214,11 @@ impl CoreInner {
 			active_memtable,
 			immutable_memtables,
 			level_manifest,
-			snapshot_tracker: SnapshotTracker::new(),
+			snapshot_tracker: {
+				let tracker = SnapshotTracker::new();
+				tracker.attach_visible_seq_num(Arc::clone(&visible_seq_num));
+				tracker
+			},
 			active_txn_tracker: Arc::new(crate::tracker::ActiveTxnTracker::new()),
 			vlog,
 			wal: WalManager::new(wal_instance),
